@@ -44,6 +44,7 @@ type FuncContract struct {
 	inline   bool
 	trusted  bool
 	opaque   []string // callees to treat as opaque (havoc) in this function
+	callMods map[string]*Clause // assumed frames of uninterpreted callees, stated at the caller
 	inlines  []string // callees to force-inline in this function
 	loops    map[int]*LoopContract
 	panicsWhen []*Clause
@@ -241,7 +242,7 @@ func parseSpecExpr(text string) (ast.Expr, error) {
 	return e, nil
 }
 
-var kwRe = regexp.MustCompile(`^(frameonly|puredyn|extern|macro|chan|gset|func|iface|spec|lemma|ghost|import|requires|ensures|modifies|inline|trusted|noverify|pure|fresh|loop|let|props|opaque|inlines|panics_when|depth|maxpaths|reveal|split|waitinv)\b`)
+var kwRe = regexp.MustCompile(`^(callmod|frameonly|puredyn|extern|macro|chan|gset|func|iface|spec|lemma|ghost|import|requires|ensures|modifies|inline|trusted|noverify|pure|fresh|loop|let|props|opaque|inlines|panics_when|depth|maxpaths|reveal|split|waitinv)\b`)
 
 // ParseContractFile extracts contracts from the //@ lines of a file.
 func ParseContractFile(pkgPath, file string, src []byte, pc *PkgContracts) error {
@@ -474,6 +475,28 @@ func ParseContractFile(pkgPath, file string, src []byte, pc *PkgContracts) error
 					c.exprs = append(c.exprs, e)
 				}
 				cur.modifies = append(cur.modifies, c)
+			case "callmod":
+				// callmod <callee>: <designators>   assumed frame of an uninterpreted callee, stated where it
+				// is called (the designators are evaluated in the caller at the call)
+				i := strings.Index(rest, ":")
+				if i < 0 {
+					return fmt.Errorf("%s:%d: callmod <callee>: <designators>", file, it.line)
+				}
+				c := &Clause{kind: "callmod", text: rest, line: it.line, file: file}
+				callee := strings.TrimSpace(rest[:i])
+				if lst := strings.TrimSpace(rest[i+1:]); lst != "nothing" {
+					for _, p := range splitTop(lst, ',') {
+						e, err := parser.ParseExpr(strings.TrimSpace(p))
+						if err != nil {
+							return fmt.Errorf("%s:%d: %v", file, it.line, err)
+						}
+						c.exprs = append(c.exprs, e)
+					}
+				}
+				if cur.callMods == nil {
+					cur.callMods = map[string]*Clause{}
+				}
+				cur.callMods[callee] = c
 			case "pure":
 				cur.hasMod = true
 				cur.pure = true
